@@ -35,10 +35,14 @@ def descriptor(ndim, pos, vel, types):
     comps = "xyz"[:ndim]
     if pos == "full":
         d += [(f"position_{c}", "d") for c in comps]
+    elif pos == "full-rev":
+        d += [(f"position_{c}", "d") for c in comps[::-1]]
     elif pos == "partial" and ndim > 1:
         d += [(f"position_{c}", "d") for c in comps[:-1]]
     if vel == "full":
         d += [(f"velocity_{c}", "d") for c in comps]
+    elif vel == "full-rot":
+        d += [(f"velocity_{c}", "d") for c in comps[1:] + comps[:1]]
     names = {"d": ["mass", "birth_time", "metallicity", "pot", "aux1", "aux2"],
              "i": ["identity", "levelp", "ipar", "jpar", "kpar", "lpar"],
              "b": ["family", "tag", "flag_a", "flag_b", "flag_c", "flag_d"]}
@@ -57,6 +61,9 @@ def part_cases(thorough):
             for counts in counts_by_ncpu[ncpu]:
                 for types in type_strings(thorough):
                     variants = [("full", "full", 4, 4, 0)]
+                    if len(types) <= 3 and ndim > 1:
+                        # components listed out of x, y, z order
+                        variants += [("full-rev", "full-rot", 4, 4, 0), ("full", "full-rot", 4, 4, 1)]
                     if len(types) <= 2 or thorough:
                         variants += [("none", "none", 4, 4, 0), ("partial", "full", 4, 4, 0), ("full", "none", 1, 8, 1),
                                      ("full", "full", 1, 4, 1), ("full", "full", 4, 8, 0)]
@@ -170,6 +177,9 @@ def sink_cases(thorough):
                         if state in ("missing", "empty") and (legacy or extra or ui):
                             continue
                         yield {"ndim": ndim, "state": state, "legacy": legacy, "extra": extra, "units": ui}
+                        if ndim > 1 and state not in ("missing", "empty"):
+                            for order in ("rev", "rot"):
+                                yield {"ndim": ndim, "state": state, "legacy": legacy, "extra": extra, "units": ui, "order": order}
 
 
 def sink_unit_factor(expr, legacy, out):
@@ -203,7 +213,7 @@ def run_sink(c):
     elif c["state"] == "empty":
         out.sink = "empty"
     else:
-        out.sink = M1.make_sink(ndim, c["state"], legacy=c["legacy"], extra_cols=c["extra"])
+        out.sink = M1.make_sink(ndim, c["state"], legacy=c["legacy"], extra_cols=c["extra"], order=c.get("order", "xyz"))
     with _load.Scratch() as d:
         out.write(d)
         try:
